@@ -69,7 +69,7 @@ prop(
     assumptions=_ASSUME + ["ownership SHARED, time-based filter off (minimum_separation 0) in the C18 harnesses",
                            "negation of the KF-C18-1 trigger in the __rest harnesses"],
     timeout={"quick": 1500, "thorough": 3000},
-    mem_gb=10,
+    mem_gb=16,
 )
 
 prop(
@@ -104,7 +104,7 @@ prop(
                            "writer: bookkeeping within the limits before the call, DataWriterQos::is_consistent(), lifespan infinite, "
                            "KEEP_LAST caller contract, negation of the KF-C19-1 trigger in the __rest harnesses"],
     timeout={"quick": 1500, "thorough": 3000},
-    mem_gb=10,
+    mem_gb=16,
 )
 
 prop(
@@ -131,7 +131,7 @@ prop(
     technique="Kani/CBMC symbolic execution of the real add_reader_change, one inductive step per pre-state structure",
     assumptions=_ASSUME + ["ownership SHARED, time-based filter off; negation of the KF-C21-1 trigger in the __rest harnesses"],
     timeout={"quick": 1500, "thorough": 3000},
-    mem_gb=10,
+    mem_gb=16,
 )
 
 prop(
@@ -164,5 +164,5 @@ prop(
                            "negation of the KF-C25-1 trigger in the __rest harnesses; every earlier accepted sample of the instance within "
                            "minimum_separation of the incoming change is still stored (negation of KF-C25-2)"],
     timeout={"quick": 1500, "thorough": 3000},
-    mem_gb=10,
+    mem_gb=16,
 )
